@@ -591,8 +591,33 @@ Qed.
 
 (* The atomicity of one [send] step (the history is a sequence of whole Send calls) rests on the client
    mutex: Send takes c.mtx and releases it by defer -- regenerated from evmclient.go on every run. *)
+(* Source shape of Send / getNonce that the model's [send_with] / [get_nonce] rest on, as regenerated
+   from evmclient.go on every run (source text, white space normalised):
+   - exactly one call of c.mtx.Lock and exactly one of c.mtx.Unlock in Send (so no second, early Unlock);
+   - the window test is applied to the value getNonce returned: c.monitor.allowNonce(nonce), and the same
+     [nonce] goes into c.newTx(ctx, tx, nonce);
+   - Send writes c.nonce only by ++ (once); getNonce writes it only with the node's answer (twice), which
+     comes from c.ethClient.PendingNonceAt(ctx, c.owner).
+   Lock first / Unlock deferred: [send_lock_first_now].  Not pinned: the order getNonce -> allowNonce ->
+   newTx further down (top_stmts gives a prefix of the body only). *)
+Lemma send_source_shape_now :
+  c08_send_lock_calls = [[]] /\ c08_send_unlock_calls = [[]] /\
+  c08_send_getnonce_args = [[bos "ctx"]] /\
+  c08_send_allow_args = [[bos "nonce"]] /\
+  c08_send_newtx_args = [[bos "ctx"; bos "tx"; bos "nonce"]] /\
+  c08_send_nonce_writes = [bos "++"] /\
+  c08_getnonce_nonce_writes = [bos "accountNonce"; bos "accountNonce"] /\
+  c08_getnonce_pending_args = [[bos "ctx"; bos "c.owner"]].
+Proof. repeat split; vm_compute; reflexivity. Qed.
+
 Lemma send_serialised_now : c08_send_locks = true /\ c08_send_unlocks = true.
 Proof. split; reflexivity. Qed.
+
+(* ... as the FIRST statement, released by defer (and by nothing else: one Lock call, one Unlock call, one
+   deferred call in the whole function) *)
+Lemma send_lock_first_now :
+  c08_send_top_stmts = [bos "c.mtx.Lock()"; bos "defer c.mtx.Unlock()"] /\ c08_send_defers = [bos "c.mtx.Unlock()"].
+Proof. split; vm_compute; reflexivity. Qed.
 
 (* ------------------------------------------------------------------------------------ *)
 (* the code before commit a9d18e4 does not have the property                              *)
